@@ -138,6 +138,18 @@ KrausSet(c) ==
                                      MatKron(GX.m, 2, M2(R0, R1, R0, R0), 2) >>]
     [] c = "corrflip" -> [d |-> 4, s |-> 1, ks |-> << MatId(4), MatKron(GX.m, 2, GZ.m, 2) >>]
     [] c = "unitCX"   -> [d |-> 4, s |-> 0, ks |-> << GCX.m >>]
+    \* polarization x Fock (d = 2 x 3) and Fock x polarization (3 x 2): bit flip with photon-number dephasing
+    [] c = "flipXdeph3" -> [d |-> 6, s |-> 1,
+                            ks |-> << MatKron(GI.m, 2, Diag3(R1, R0, R0), 3), MatKron(GI.m, 2, Diag3(R0, R1, R0), 3),
+                                      MatKron(GI.m, 2, Diag3(R0, R0, R1), 3), MatKron(GX.m, 2, Diag3(R1, R0, R0), 3),
+                                      MatKron(GX.m, 2, Diag3(R0, R1, R0), 3), MatKron(GX.m, 2, Diag3(R0, R0, R1), 3) >>]
+    [] c = "loss3Xdamp" -> [d |-> 6, s |-> 1,
+                            ks |-> << MatKron(<< <<R1,R0,R0>>, <<R0,R0,R0>>, <<R0,R0,R0>> >>, 3, M2(RS2, R0, R0, R1), 2),
+                                      MatKron(<< <<R0,R1,R0>>, <<R0,R0,R0>>, <<R0,R0,R0>> >>, 3, M2(RS2, R0, R0, R1), 2),
+                                      MatKron(<< <<R0,R0,R1>>, <<R0,R0,R0>>, <<R0,R0,R0>> >>, 3, M2(RS2, R0, R0, R1), 2),
+                                      MatKron(<< <<R1,R0,R0>>, <<R0,R0,R0>>, <<R0,R0,R0>> >>, 3, M2(R0, R1, R0, R0), 2),
+                                      MatKron(<< <<R0,R1,R0>>, <<R0,R0,R0>>, <<R0,R0,R0>> >>, 3, M2(R0, R1, R0, R0), 2),
+                                      MatKron(<< <<R0,R0,R1>>, <<R0,R0,R0>>, <<R0,R0,R0>> >>, 3, M2(R0, R1, R0, R0), 2) >>]
 
 \* POVM sets given by measurement operators M_i with sum M_i^dagger M_i = I;
 \* p_i = Tr(M_i rho M_i^dagger), post-state M_i rho M_i^dagger
@@ -150,6 +162,14 @@ PovmSet(c) ==
     [] c = "projXnon" -> [d |-> 4, s |-> 1,
                           ks |-> << MatKron(P0, 2, M2(RS2, R0, R0, R1), 2), MatKron(P0, 2, M2(R0, R0, R0, R1), 2),
                                     MatKron(P1, 2, M2(RS2, R0, R0, R1), 2), MatKron(P1, 2, M2(R0, R0, R0, R1), 2) >>]
+    [] c = "nonXproj3" -> [d |-> 6, s |-> 1,                 \* polarization (non-projective) x Fock (number projectors)
+                           ks |-> << MatKron(M2(RS2, R0, R0, R1), 2, Diag3(R1, R0, R0), 3), MatKron(M2(RS2, R0, R0, R1), 2, Diag3(R0, R1, R0), 3),
+                                     MatKron(M2(RS2, R0, R0, R1), 2, Diag3(R0, R0, R1), 3), MatKron(M2(R0, R0, R0, R1), 2, Diag3(R1, R0, R0), 3),
+                                     MatKron(M2(R0, R0, R0, R1), 2, Diag3(R0, R1, R0), 3), MatKron(M2(R0, R0, R0, R1), 2, Diag3(R0, R0, R1), 3) >>]
+    [] c = "proj3Xx" -> [d |-> 6, s |-> 2,                   \* Fock (number projectors) x polarization (X basis)
+                         ks |-> << MatKron(Diag3(R1, R0, R0), 3, M2(R1, R1, R1, R1), 2), MatKron(Diag3(R0, R1, R0), 3, M2(R1, R1, R1, R1), 2),
+                                   MatKron(Diag3(R0, R0, R1), 3, M2(R1, R1, R1, R1), 2), MatKron(Diag3(R1, R0, R0), 3, M2(R1, RM1, RM1, R1), 2),
+                                   MatKron(Diag3(R0, R1, R0), 3, M2(R1, RM1, RM1, R1), 2), MatKron(Diag3(R0, R0, R1), 3, M2(R1, RM1, RM1, R1), 2) >>]
     [] c = "bell"    -> [d |-> 4, s |-> 2,                   \* projectors on the four Bell states (x 2)
                          ks |-> << [r \in 1..4 |-> [cc \in 1..4 |-> IF r \in {1,4} /\ cc \in {1,4} THEN R1 ELSE R0]],
                                    [r \in 1..4 |-> [cc \in 1..4 |-> IF r \in {1,4} /\ cc \in {1,4} THEN (IF r = cc THEN R1 ELSE RM1) ELSE R0]],
@@ -219,8 +239,8 @@ IdHOM    == GBS(1).m[5][5] = R0
 IdBSsym  == \A k \in 0..8 : RMul(GBS(k).m[4][4], GBS(k).m[4][4]) = RMul(R2, GBS(k).m[7][7])
 \* channels and POVMs are complete
 KrausIds == {"bitflip", "dephase", "ampdamp", "phaseflipY", "unitS", "unitH", "deph3", "loss3",
-             "flipXdamp", "corrflip", "unitCX"}
-PovmIds  == {"proj", "xbasis", "nonproj", "ybasis", "proj3", "projXnon", "bell"}
+             "flipXdamp", "corrflip", "unitCX", "flipXdeph3", "loss3Xdamp"}
+PovmIds  == {"proj", "xbasis", "nonproj", "ybasis", "proj3", "projXnon", "bell", "nonXproj3", "proj3Xx"}
 IdKraus == \A c \in KrausIds : Complete(KrausSet(c))
 IdPovm  == \A c \in PovmIds : Complete(PovmSet(c))
 
